@@ -57,7 +57,7 @@ def run(ctx):
     ntr = 12 if q else 96
     ctx.run([hb, "-mode", "trace", "-traces", str(ntr), "-ops", "650" if q else "900", "-out", ctx.path("traces.ndjson")], timeout=1200)
     rows = vlib.read_ndjson(ctx.path("traces.ndjson"))
-    bad, drift2, _ = judge(ctx, "netutil", "IPv4FilterCases", rows, nshards=min(16, len(rows)), workers=1, timeout=2400,
+    bad, drift2, _ = judge(ctx, "netutil", "IPv4FilterCases", vlib.balanced(rows, min(16, len(rows)), lambda c: len(c["evs"]) ** 2), nshards=min(16, len(rows)), workers=1, timeout=2400,
                            constants="CONSTANTS\n  W = 32\n  ListSize = 256\n", xmx="4g")
     for c in bad[:10]:
         k = int(c.get("_info") or 1)
